@@ -78,7 +78,12 @@ impl Compound {
     pub fn update(&mut self, unit: Unit, power: i32, prefix: i32) -> Result<(), i32> {
         match self.names.entry(unit) {
             btree_map::Entry::Vacant(e) => {
-                e.insert(State { power, prefix });
+                // A unit that is not there stays away when nothing is added to
+                // it: `m/m^1` has cancelled by the time its power is applied.
+                if power != 0 {
+                    e.insert(State { power, prefix });
+                }
+
                 Ok(())
             }
             btree_map::Entry::Occupied(mut e) => {
